@@ -190,6 +190,12 @@ def step (fn : Fn Float) (sp : Sp Float) (regs : Array Val) (j : Json) : Except 
   | "mprojectx" =>
     let a ← getMsg regs j "a"
     pure (.msg (a.projectX fn sp (← floats j "xs") (← floats j "lws") (← getNat j "id")))
+  | "mulb" =>
+    let b ← getMsg regs j "b"
+    pure (.msg (.plain ((← getMsg regs j "a").base.mulB fn b.natural (← getNat j "j"))))
+  | "divb" =>
+    let b ← getMsg regs j "b"
+    pure (.msg (.plain ((← getMsg regs j "a").base.divB fn b.natural b.base.logNorm (← getNat j "j"))))
   | "residual" =>
     let fam ← famOf (← getStr j "fam")
     let r := suffResidual fn sp fam (← getFloat j "m1") (← getFloat j "m2"); pure (.pair r.1 r.2)
